@@ -23,7 +23,7 @@ void vh_mul_case(int route, int m, int l, int n, int kindA, int kindB, int param
 /* operand factory: a fresh owner, or (views mode, C09) a window at a random placement inside a
  * larger junk-filled parent. force: -1 per global mode, 0 owner, 1 window */
 extern int vh_views;
-extern int vh_force_w0;
+extern __thread int vh_force_w0;
 mzd_t *vh_mk(rci_t m, rci_t n, int force);
 mzd_t *vh_mk_kind(rci_t m, rci_t n, int kind);
 int vh_pick(const int *list, int n);
